@@ -103,7 +103,7 @@ def NotExtended (T : Table) (s rest : Bytes) : Prop :=
   ∀ e' ∈ T, e'.seq <+: s ++ rest → e'.seq.length ≤ s.length
 
 /-- every key sequence is non-empty and starts with a control byte, space or DEL (never with a
-printable character other than space, never with a byte ≥ 0x80) -/
+printableScalar character other than space, never with a byte ≥ 0x80) -/
 def WFTable (T : Table) : Prop := ∀ e ∈ T, ∃ c tl, e.seq = c :: tl ∧ (c ≤ 32 ∨ c = 127)
 
 /-- no key of the table is comparable (prefix either way) with `p`: then no key is a prefix of
@@ -113,10 +113,10 @@ def incomparableB (T : Table) (p : Bytes) : Bool :=
 
 /-- a character the rune loop of detectOneMsg accepts: a valid scalar value that is not a control
 character, not space, not DEL and not U+FFFD -/
-def printable (r : Nat) : Bool :=
+def printableScalar (r : Nat) : Bool :=
   Utf8.validScalar r && decide (32 < r) && r != 127 && r != Utf8.runeError
 
-/-- what follows a run of printable characters ends the run: nothing, or bytes that decode to a
+/-- what follows a run of printableScalar characters ends the run: nothing, or bytes that decode to a
 control character, space, DEL, or an invalid / truncated encoding -/
 def stopsRun (rest : Bytes) : Bool :=
   let r := (Utf8.decodeRune rest).1
